@@ -2418,8 +2418,8 @@ Proof.
   - apply (count_ok_ext s s'); auto;
       first [apply (reg_setHeight _ _ _ _ H)|apply (obs_setHeight _ _ _ _ H)|apply (numNodes_setHeight _ _ _ _ H)].
   - apply (obs_ok_ext s s'); auto;
-      first [apply (obs_setHeight _ _ _ _ H)|apply (next_setHeight _ _ _ _ H)|apply (has_setHeight _ _ _ _ H)
-            |apply Hproj; reflexivity].
+      first [apply (binds_setHeight _ _ _ _ H)|apply (obs_setHeight _ _ _ _ H)|apply (next_setHeight _ _ _ _ H)
+            |apply (has_setHeight _ _ _ _ H)|apply Hproj; reflexivity].
   - intros m. rewrite Hg, (Hproj _ valid) by reflexivity. apply b_valid0.
   - intros m b. rewrite !Hg, (Hproj _ scope) by reflexivity. apply b_sreg0.
   - rewrite (log_setHeight _ _ _ _ H). exact b_log0.
@@ -2496,7 +2496,8 @@ Proof.
         rewrite (numNodes_setHeight _ _ _ _ H). unfold s2. rewrite numNodes_emit, numNodes_addNode, Hgn.
         rewrite (obs_setHeight _ _ _ _ H). unfold s2. rewrite obs_emit, obs_addNode. lia.
     + apply (obs_ok_ext s s3); auto;
-        first [rewrite (obs_setHeight _ _ _ _ H); unfold s2; autorewrite with eng; reflexivity
+        first [rewrite (binds_setHeight _ _ _ _ H); unfold s2; autorewrite with eng; reflexivity
+              |rewrite (obs_setHeight _ _ _ _ H); unfold s2; autorewrite with eng; reflexivity
               |rewrite (next_setHeight _ _ _ _ H); unfold s2; autorewrite with eng; reflexivity
               |intros m; rewrite (has_setHeight _ _ _ _ H); unfold s2; apply has_addNode
               |apply Hproj; reflexivity].
@@ -3073,6 +3074,9 @@ Theorem Inv_step_observe s o s' e :
 Proof.
   intros HI Hok Hcl Hgo Hstep Herr. destruct o as [| | | | | | | | | | |n| | | | | | | |]; try discriminate.
   simpl in Hstep, Hok, Hcl. apply isTop_true in Hcl as [Hn Hscn].
+  assert (Hbn : binds s !! n = None).
+  { destruct (binds s !! n) as [r|] eqn:Er; [|reflexivity]. exfalso.
+    apply isUserNode_true in Hok as [_ Hnl]. rewrite (bw_kind_lhs s n r (inv_binds s HI n r Er)) in Hnl. exact Hnl. }
   unfold observe in Hstep.
   set (o := next s) in *.
   set (s1 := s <| next := S o |> <| obs := <[o := n]> (obs s) |> <| numNodes := numNodes s + 1 |>) in *.
@@ -3115,7 +3119,8 @@ Proof.
     - destruct t_count0 as [C1 C2 C3]. split; [exact C1| |].
       + intros m. rewrite (Hfield _ inGraph) by reflexivity. apply C2.
       + cbn. rewrite C3, map_size_insert, Ho_fresh. lia.
-    - destruct t_obs0 as [O1 O2 O3]. split.
+    - destruct t_obs0 as [O1 O2 O3 O4]. split;
+        [| | |intros o' m; cbn; rewrite lookup_insert_Some; intros [[<- <-]|[Hne' Ho']]; [exact Hbn|apply (O4 o' m Ho')]].
       + intros m o'. rewrite Hobs. cbn. rewrite lookup_insert_Some.
         destruct (decide (m = n)) as [->|Hne'].
         * rewrite elem_of_app, elem_of_list_singleton, O1. split.
@@ -4096,7 +4101,8 @@ Theorem Inv_step_addinput s o s' e :
 Proof.
   intros HI Hok Hcl Hgo Hstep He1 He2. destruct o as [| | | | | | | | | | | | | | |n a| | | |]; try discriminate.
   simpl in Hstep, Hok, Hcl.
-  apply andb_true_iff in Hok as [Hn _]. apply isMapN_true in Hn as [Hn [fn Hkn]].
+  apply andb_true_iff in Hok as [Hn Hua]. apply isMapN_true in Hn as [Hn [fn Hkn]].
+  apply isUserNode_true in Hua as [_ Hnla].
   apply andb_true_iff in Hcl as [[Htn Hta]%andb_true_iff Hlt].
   apply isTop_true in Htn as [_ Hscn]. apply isTop_true in Hta as [Ha Hsca]. apply Nat.ltb_lt in Hlt.
   unfold addInput in Hstep.
@@ -4126,7 +4132,9 @@ Proof.
         rewrite (bw_kind_main s b r (r_binds0 b r Hr)) in Hkn. discriminate.
     - apply (kinds_ok_ext s s1); auto.
     - apply (scopes_ok_ext s s1); auto.
-    - destruct r_scoping0 as [S1 S2 S3 S4]. split.
+    - destruct r_scoping0 as [S1 S2 S3 S4 S5]. split;
+        [| | | |intros m q b0; rewrite Hdecl, Hk; destruct (decide (m = n)) as [->|]; [|apply S5];
+                rewrite elem_of_app, elem_of_list_singleton; intros [Hq| ->] Hkq; [apply (S5 n q b0 Hq Hkq)|rewrite Hkq in Hnla; destruct Hnla]].
       + intros m q. rewrite Hdecl, !Hsc, Hk. destruct (decide (m = n)) as [->|]; [|apply S1].
         rewrite elem_of_app, elem_of_list_singleton. intros [Hq| ->]; [apply S1, Hq|left; exact Hsca].
       + intros m q b. rewrite Hdecl, !Hsc. destruct (decide (m = n)) as [->|]; [|apply S2].
